@@ -280,6 +280,8 @@ class Gen:
         rs = {max(x, y, key=ORD.get)
               for x in self.rates[a] for y in self.rates[b]}
         t = self.add({'k': 'bin', 'op': op, 'a': a, 'b': b}, rs, 'sig', None)
+        if self.draw(st.integers(0, 2)) == 0:
+            c = t           # the same (single-use) node as both operands
         rs2 = {max(x, y, key=ORD.get) for x in rs for y in self.rates[c]}
         return self.add({'k': 'bin', 'op': '+', 'a': t, 'b': c}, rs2, 'sig',
                         None)
